@@ -32,8 +32,8 @@ class ClassTable:
         return self.id[c]
 
     def hier(self):
-        """(hier (c m1 m2 ...) ...): the MRO of every known class, as ids"""
+        """(hier (c (b1 ...) (m1 m2 ...)) ...): direct bases and MRO of every known class, as ids"""
         out = ["hier"]
         for c, i in sorted(self.id.items(), key=lambda kv: kv[1]):
-            out.append(tuple([str(i)] + [str(self.of(b)) for b in c.__mro__]))
+            out.append((str(i), tuple(str(self.of(b)) for b in c.__bases__), tuple(str(self.of(b)) for b in c.__mro__)))
         return tuple(out)
